@@ -1,8 +1,9 @@
 import Paho.Driver.Pure
+import Paho.Driver.Session
 open Paho.Driver
 
 def drivers : List (String × Drv) :=
-  [("trie", trieDrv), ("mid", midDrv), ("validate", validateDrv)]
+  [("trie", trieDrv), ("mid", midDrv), ("validate", validateDrv), ("session", sessionDrv)]
 
 def main (args : List String) : IO UInt32 := do
   match args with
